@@ -191,11 +191,16 @@ Definition small_scale (root lam k1 kb t : expr) : expr :=
 Definition act_spec (atoms lam k1 kb t : expr) : expr :=
   lam /: c HOUR *: (atoms *: k1 /: ((kb +: lam) -: k1) *: (eexp_neg (k1 *: t) -: eexp_neg ((kb +: lam) *: t))).
 
+(* initialXS, effectiveXS and the flux the first reaction sees *)
+Definition row_xs (r : arow) (env : actenv) : Q := (r_xs r + epi_factor env * r_res r)%Q.
+Definition row_xs2 (r : arow) (env : actenv) : Q := (r_xs_par r + epi_factor env * r_res_par r)%Q.
+Definition row_flux (r : arow) (env : actenv) : Q :=
+  if r_fast r then (fluence env / fast_ratio env)%Q else fluence env.
+
 Definition activity_row (r : arow) (amass : Z) (mass : Q) (env : actenv) (exposure : Q) : outcome :=
   if (r_fast r && Qeq_bool (fast_ratio env) 0)%bool then OSkip else
-  let epi := epi_factor env in
-  let initialXS := (r_xs r + epi * r_res r)%Q in
-  let flux := if r_fast r then (fluence env / fast_ratio env)%Q else fluence env in
+  let initialXS := row_xs r env in
+  let flux := row_flux r env in
   if Z.eqb amass 0 then ORaise ZeroDivErr else
   let root := (flux * initialXS * BARN * mass / inject_Z amass * KUCI)%Q in
   if Qeq_bool (r_thalf r) 0 then ORaise ZeroDivErr else
@@ -209,13 +214,13 @@ Definition activity_row (r : arow) (amass : Z) (mass : Q) (env : actenv) (exposu
   else if String.eqb (r_reaction r) "2n" then
     if Qeq_bool (r_thalf_par r) 0 then ORaise ZeroDivErr else
     let plam := LN2 /: c (r_thalf_par r) in
-    let effectiveXS := (r_xs_par r + epi * r_res_par r)%Q in
+    let effectiveXS := row_xs2 r env in
     let k1 := c (flux * initialXS * BARN * HOUR)%Q in
     let k2c := c (fluence env * BARN * HOUR * effectiveXS)%Q in
     OAct B2n (n2_code (c root) lam plam k1 k2c (c t)) (n2_scale (c root) lam plam k1 k2c (c t)) lam
              (n2_spec (c root) lam plam k1 k2c (c t))
   else
-    let effectiveXS := (r_xs_par r + epi * r_res_par r)%Q in
+    let effectiveXS := row_xs2 r env in
     let k1 := (flux * initialXS * HOUR * BARN)%Q in
     let kb := (fluence env * effectiveXS * HOUR * BARN)%Q in
     let U := (k1 * t)%Q in
@@ -251,6 +256,12 @@ Definition rest_spec (spec : expr) (thalf ti : Q) : expr := spec *: eexp_neg (c 
    for one formula constituent: an isotope gets mass*frac; a natural element is expanded over its
    isotopes with mass*frac*abundance*0.01 (zero masses skipped).  The abundances are those served by
    the mass table (C06); they are an input here. *)
+Definition isotope_activity (rows : list arow) (z a : Z) (im : Q) (env : actenv) (t : Q) : list outcome :=
+  map (fun r => activity_row r a im env t) (rows_of rows z a).
+Definition element_activity (rows : list arow) (z : Z) (isos : list (Z * Q)) (m : Q) (env : actenv) (t : Q) : list outcome :=
+  flat_map (fun ia => let '(a, ab) := ia in
+                      let im := (m * ab * (1 # 100))%Q in
+                      if Qeq_bool im 0 then [] else isotope_activity rows z a im env t) isos.
 Definition constituent_rows (rows : list arow) (z : Z) (isos : list (Z * Q)) (m : Q) : list (arow * Q) :=
   flat_map (fun ia => let '(a, ab) := ia in
                       let im := (m * ab * (1 # 100))%Q in
